@@ -56,7 +56,7 @@ func c09Gen(c *vfCtx, emit func(c09Case)) {
 									// half of the cases: a LIVE value with lines shaped like entry headers (they are text, not entries, in every mode)
 									b1 := "b1"
 									if (mask+fmask+cnt)%2 == 1 {
-										b1 = "board:\n[backlog - 3]\n\n[TestQ/x - 12]\nend"
+										b1 = "board:\n[backlog - 3]\n  ---\n--- \n\t---\n[TestQ/x - 12]\nend"
 									}
 									live := []vfEntry{{ID: "TestA - 1", Body: "a1"}, {ID: "TestA - 2", Body: "a2"}, {ID: "TestB - 1", Body: b1}}
 									if unsorted {
